@@ -48,11 +48,11 @@ pub fn run(args: &Args) -> Report {
         }
         return rep;
     }
-    let scratch = format!("/verif/harness/target/c07-{}", std::process::id());
+    let scratch = format!("{}/harness/target/c07-{}", crate::core::root(), std::process::id());
     let _ = std::fs::remove_dir_all(&scratch);
     std::fs::create_dir_all(&scratch).unwrap();
     for f in ["Thresholds.tla", "Thresholds_tlc.cfg", "Thresholds_apalache.cfg"] {
-        std::fs::copy(format!("/verif/models/{f}"), format!("{scratch}/{f}")).expect("copy model");
+        std::fs::copy(format!("{}/models/{f}", crate::core::root()), format!("{scratch}/{f}")).expect("copy model");
     }
     let tlc_max: u64 = args.tier.pick(20_000, 200_000);
     let cfg = std::fs::read_to_string(format!("{scratch}/Thresholds_tlc.cfg")).unwrap().replace("MaxN = 20000", &format!("MaxN = {tlc_max}"));
